@@ -14,11 +14,11 @@ def describe(tier):
     return dict(
         rule="case system with depth-2 follow-ups: both CPU buffer kinds x capacity 0..%d x every (offset, length) inside it x every copying primitive "
         "(update_from_buffer with bytes / bytearray / memoryview / ndarray.data of 1-, 2- and 8-byte dtypes; update_from_native; copy_to_native; to_native; "
-        "to_bytearray; to_pointer_arg; to_nplike / to_nparray; update_from_nplike with C / F / strided / reversed sources with and without dtype conversion; "
+        "to_bytearray; to_pointer_arg; to_nplike / to_nparray; update_from_nplike with C / F / strided / reversed / non-native byte order sources with and without dtype conversion; "
         "update_from_xbuffer same context same kind / same context other kind / other context; scalar and scalar-array helpers for the 10 dtypes) against a "
         "bytearray model on a poisoned background: exactly the requested bytes at the requested offsets, every other byte identical, capacity unchanged; "
         "then the source / the result is mutated: extracted copies stay equal, typed views follow the buffer and vice versa." % (10 if tier == "quick" else 20),
-        bounds=dict(capacities="0..%d" % (10 if tier == "quick" else 20), dtypes=DTYPES, layouts=["C", "F", "strided", "reversed", "converted"]),
+        bounds=dict(capacities="0..%d" % (10 if tier == "quick" else 20), dtypes=DTYPES, layouts=["C", "F", "strided", "reversed", "converted", "byteswapped"]),
         assumptions=["offsets and lengths inside the capacity (out-of-range requests are not part of the property)"],
         must_fire=["update_from_buffer", "update_from_native", "copy_to_native", "to_native", "to_bytearray", "to_nplike", "update_from_nplike", "update_from_xbuffer", "to_pointer_arg", "scalar", "scalar-array"],
     )
@@ -251,10 +251,14 @@ def run_shard(shard, tier, seed):
                         conv = [("converted:f8", small.astype("<f8")), ("converted:i8", small.astype("<i8"))]
                     else:
                         conv = [("converted:i4", (np.arange(cnt) - 3).reshape(shape).astype("<i4"))]
+                    if d.itemsize > 1:  # same item type, other byte order: same VALUES, every item needs its bytes swapped
+                        variants.append(("byteswapped", base.astype(d.newbyteorder())))
+                        variants.append(("byteswapped+strided", big[sl].astype(d.newbyteorder())[::-1][::-1]))
                     for cname, ca in conv:
                         if ca.dtype == d:
                             continue
                         variants.append((cname, ca))
+                        variants.append((cname + "+byteswapped", ca.astype(ca.dtype.newbyteorder())))
                         if len(shape) == 2:  # conversion AND a source that is not C-contiguous
                             variants.append((cname + "+F", np.asfortranarray(ca)))
                             variants.append((cname + "+T-view", np.ascontiguousarray(ca.T).T))
